@@ -1010,3 +1010,9 @@ def m_size_of(I, st, args, c, dest, target, span):
         st.bounds[("size",)] = (1, ISIZE_MAX)        # Node<T> is never zero-sized (it holds a stamp)
         return VInt(Lin(0, ("size",), 1), 64, False)
     raise Undecided("size_of of an unexpected type")
+
+
+@model("<I as core::iter::traits::collect::IntoIterator>::into_iter", "core::iter::traits::iterator::Iterator::by_ref")
+def m_into_iter_identity(I, st, args, c, dest, target, span):
+    # `impl<I: Iterator> IntoIterator for I` is the identity; by_ref returns the same `&mut I`
+    return args[0]
